@@ -421,6 +421,19 @@ func genOp(g *common.Gen) {
 			}
 		}
 		emit(gc(module), gc(verb), tail, params)
+		if module == "faces" && verb == "create" && strings.Contains(params, "U=746370") {
+			// a TCP face was (probably) just created: an out-of-range FacePersistency for the newest faces
+			for _, fid := range []string{"8", "9", "10"} {
+				g.Op("cmd %d - %s %s %s 1 F=%s;P=%s", fA, pLocalhost, gc("faces"), gc("update"), fid, common.Pick(r, []string{"3", "77", "1099511627776", "18446744073709551615"}))
+			}
+			g.Stat("update.persistency-out-of-range-tcp")
+		}
+		if module == "faces" && verb == "update" && r.Chance(1, 3) {
+			// nothing but an out-of-range FacePersistency, on every kind of face (internal, udp, tcp, null)
+			g.Op("cmd %d - %s %s %s 1 F=%s;P=%s", fA, pLocalhost, gc("faces"), gc("update"),
+				common.Pick(r, []string{"8", "8", "8", "9", "9", "2", "7", "1"}), common.Pick(r, []string{"3", "77", "1099511627776", "18446744073709551615"}))
+			g.Stat("update.persistency-out-of-range")
+		}
 		// follow-ups that observe liveness
 		if module == "faces" && verb == "update" && strings.Contains(params, "X=") {
 			for _, fid := range []string{"3", "4", "5", "2"} {
